@@ -47,10 +47,10 @@ CHECKS = {
     },
     "C18": {
         "text": "Bounded model checking of seglog's real Reader / ReadAheadBuf / Iter and Writer over a modelled file shared between them: every read through a "
-                "LONG-LIVED reader (cache filled earlier, with arbitrary bytes beyond the then-flushed offset standing for a writer in mid-write) must equal a "
+                "LONG-LIVED reader (cache filled earlier, with arbitrary bytes - or the preallocated zeros - beyond the then-flushed offset, standing for a writer in mid-write / an idle writer) must equal a "
                 "specification-level read of the disk below the flushed offset as they are NOW; unflushed bytes are never served; truncation and header "
                 "replacement are observed. Scenario scripts and record lengths are enumerated shapes; record contents, headers and the unflushed tail are symbolic.",
-        "note": TB + "the POSIX file model; scaled buffer constants (READ_AHEAD_SIZE 32, PAGE_SIZE 8, OPTIMISTIC_DATA_SIZE 4, WRITE_BUF_SIZE 16); cheap linear checksum; "
+        "note": TB + "the POSIX file model; scaled buffer constants (READ_AHEAD_SIZE 32, PAGE_SIZE 16, OPTIMISTIC_DATA_SIZE 4, WRITE_BUF_SIZE 16); cheap linear checksum; "
                 "reader and writer interleave at operation granularity (a reader's single atomic load of the flushed offset is not split); SC atomics.",
         "technique": "Kani/CBMC bounded model checking of the real seglog Reader/Writer over a symbolic file model, differential against a reference reader",
     },
@@ -94,7 +94,7 @@ CHECKS = {
                 "(any order, duplicates, stale lower counts, any replication factor 1..12, versions 1..4): after every report the watermark is monotone, never "
                 "exceeds and always equals the longest prefix whose best reported count reaches quorum; plus one inductive step from an arbitrary state "
                 "satisfying the representation invariant (no panic, invariant re-established).",
-        "note": TB + "std BTreeMap replaced by an array-backed map with the same API subset (mocks/shimmap; capacity is a stated bound); clock stubbed; bincode derives stripped.",
+        "note": TB + "std BTreeMap<u64,_> replaced by a direct-indexed map (slot = key, keys < 8) with the same API subset (mocks/shimmap); clock stubbed; bincode derives stripped.",
         "technique": "Kani/CBMC bounded model checking of the verbatim confirmation-state slice, symbolic report histories + inductive step",
     },
     "C12": {
@@ -148,7 +148,7 @@ CHECKS = {
                 "modelled file: round trip byte-identical through every read path; ANY single flipped bit of crc|header|data (symbolic position) rejected; any single flipped length bit never yields valid data nor a panic; "
                 "bursts <= 32 bits (symbolic start and pattern) inside header|data rejected; any strict prefix of a record never returned. Record lengths (0..12 data bytes, H in {0,1}) and read path are enumerated shapes, contents symbolic.",
         "note": TB + "file model; scaled buffer constants so that all four read paths are reachable with <= 12-byte records; crc32fast baseline instead of the cpuid-dispatched SIMD path; compressed records and the reopen scan are outside. "
-                "Known finding: a burst starting inside the stored CRC field can go undetected (format-level).",
+                "Known findings (format-level, solver-found contents replayed natively): a burst starting inside the stored CRC field, a flipped length bit (>= 3 data bytes) and a lost tail longer than 32 bits can collide under CRC-32.",
         "technique": "Kani/CBMC bounded model checking of the real seglog readers with the real CRC-32 tables; counterexample values replayed natively",
     },
     "C19": {
